@@ -97,6 +97,7 @@ func workerMain(inflight string) {
 				_ = writeFileAtomic(inflight, b)
 			}
 			v = execCase(c)
+			v.Features = c.Features
 			if len(v.Failures) > 0 || cmd.Sample || v.Infra != "" {
 				v.Case = c
 			}
